@@ -253,7 +253,13 @@ def apply(c, tr):
         c["seq_order"] = tr["order"]
         return c, 1.0
     if k == "swap":
-        return swap_children(c, tr["swaps"]), 1.0
+        swaps = list(tr["swaps"])
+        if c["model"]["name"] not in REVERSIBLE and c["tree"]["kind"] == "unrooted_tensor":
+            # the explicit-tensor unrooted tree puts the whole root branch on one root child; which child that is
+            # depends on the order of the root's children, and for a non-reversible model the position of the
+            # root on that branch matters: swapping the root's children is not a rewriting of the same tree
+            swaps[-1] = False
+        return swap_children(c, swaps), 1.0
     if k == "col_perm":
         c = copy.deepcopy(c)
         c["cols"] = [c["cols"][i] for i in tr["order"]]
@@ -354,8 +360,11 @@ def body(pc):
     if va.size != 1 or vb.size != 1 or not (np.isfinite(va).all() and np.isfinite(vb).all()):
         return res.fail("nonfinite", {"A": va.tolist(), "B": vb.tolist()})
     va, vb = float(va.reshape(-1)[0]), float(vb.reshape(-1)[0])
-    if abs(vb - factor * va) > 1e-9 * max(1.0, abs(factor * va)):
-        return res.fail("mismatch", {"L(A)": va, "L(B)": vb, "factor": factor, "rel": abs(vb - factor * va) / max(1.0, abs(factor * va))})
+    from vt.props.c01 import conditioning
+
+    tol = 1e-9 * max(1.0, abs(factor * va)) + abs(factor) * conditioning(A) + conditioning(B)
+    if abs(vb - factor * va) > tol:
+        return res.fail("mismatch", {"L(A)": va, "L(B)": vb, "factor": factor, "rel": abs(vb - factor * va) / max(1.0, abs(factor * va)), "tol": tol})
     return res
 
 
